@@ -32,6 +32,7 @@ import (
 	"go.etcd.io/etcd/api/v3/mvccpb"
 	clientv3 "go.etcd.io/etcd/client/v3"
 	"google.golang.org/grpc"
+	"google.golang.org/grpc/connectivity"
 )
 
 const (
@@ -47,7 +48,7 @@ type c15Event struct {
 }
 
 type c15Watch struct {
-	pfx  string // key prefix watched, with the trailing delimiter
+	rg   c15Range // key range watched
 	ch   chan clientv3.WatchResponse
 	next int64 // next revision to deliver
 	dead bool  // the cluster has abandoned this watcher (reload)
@@ -68,7 +69,6 @@ type c15Etcd struct {
 	log      []c15Event
 	watchers []*c15Watch
 	mid      map[string][]c15Change // per prefix: applied right after its next snapshot (between Get and Watch)
-	prefixes map[string]bool        // prefixes the driver scripts
 	nGet     int
 	nWatch   int
 	// Get faults, consumed one per call: "err" = fails at once, "block" = blocks until the
@@ -82,8 +82,7 @@ type c15Etcd struct {
 }
 
 func newC15Etcd() *c15Etcd {
-	return &c15Etcd{kv: map[string]string{}, modRev: map[string]int64{}, rev: 1, mid: map[string][]c15Change{},
-		prefixes: map[string]bool{}}
+	return &c15Etcd{kv: map[string]string{}, modRev: map[string]int64{}, rev: 1, mid: map[string][]c15Change{}}
 }
 
 func (f *c15Etcd) applyLocked(c c15Change) {
@@ -120,11 +119,24 @@ func (f *c15Etcd) Revoke(context.Context, clientv3.LeaseID) (*clientv3.LeaseRevo
 	return nil, errors.New("c15: Revoke not scripted")
 }
 
-func (f *c15Etcd) checkPrefix(what, key string, opts []clientv3.OpOption) {
-	if !f.prefixes[key] || !clientv3.IsOptsWithPrefix(opts) {
-		f.problems = append(f.problems, fmt.Sprintf("%s(%q, prefix=%v): the driver scripts only the prefixes %v",
-			what, key, clientv3.IsOptsWithPrefix(opts), f.prefixes))
+// c15Range is the key range of a request as etcd understands it: the single key, or
+// [key, end) with the end computed by the client's options (WithPrefix, WithRange, WithFromKey).
+// The model etcd answers any request by these semantics over its whole key space, so a request
+// for a wrong key or prefix gets what real etcd would give.
+type c15Range struct{ key, end string }
+
+func c15RangeOf(key string, opts []clientv3.OpOption) c15Range {
+	return c15Range{key: key, end: string(clientv3.OpGet(key, opts...).RangeBytes())}
+}
+
+func (r c15Range) has(k string) bool {
+	switch {
+	case r.end == "":
+		return k == r.key
+	case r.end == "\x00":
+		return k >= r.key
 	}
+	return k >= r.key && k < r.end
 }
 
 // Get answers with the snapshot of the model etcd and its revision; changes scripted as
@@ -154,10 +166,10 @@ func (f *c15Etcd) Get(ctx context.Context, key string, opts ...clientv3.OpOption
 		f.nExpired++
 		return nil, err
 	}
-	f.checkPrefix("Get", key, opts)
+	rg := c15RangeOf(key, opts)
 	keys := make([]string, 0, len(f.kv))
 	for k := range f.kv {
-		if strings.HasPrefix(k, key) {
+		if rg.has(k) {
 			keys = append(keys, k)
 		}
 	}
@@ -178,8 +190,7 @@ func (f *c15Etcd) Get(ctx context.Context, key string, opts ...clientv3.OpOption
 func (f *c15Etcd) Watch(_ context.Context, key string, opts ...clientv3.OpOption) clientv3.WatchChan {
 	f.mu.Lock()
 	defer f.mu.Unlock()
-	f.checkPrefix("Watch", key, opts)
-	w := &c15Watch{pfx: key, ch: make(chan clientv3.WatchResponse)}
+	w := &c15Watch{rg: c15RangeOf(key, opts), ch: make(chan clientv3.WatchResponse)}
 	if rev := clientv3.OpGet(key, opts...).Rev(); rev != 0 {
 		w.next = rev
 	} else {
@@ -242,7 +253,7 @@ func (f *c15Etcd) pump(rng *rand.Rand) error {
 	for _, w := range live {
 		var evs []*clientv3.Event
 		for _, e := range log {
-			if e.rev < w.next || !strings.HasPrefix(e.key, w.pfx) {
+			if e.rev < w.next || !w.rg.has(e.key) {
 				continue
 			}
 			ev := &clientv3.Event{Type: clientv3.EventTypePut, Kv: &mvccpb.KeyValue{Key: []byte(e.key), Value: []byte(e.val), ModRevision: e.rev}}
@@ -284,6 +295,66 @@ func (f *c15Etcd) killWatchers() {
 	}
 	f.mu.Unlock()
 }
+
+// c15Conn is the scripted connection-state source the real stateWatcher watches (its etcdConn
+// interface): the driver sets states, WaitForStateChange blocks until the state differs from the
+// one the watcher has seen.  `seen` is the last state the watcher reported having: the barrier
+// for "the watcher has observed this state".
+type c15Conn struct {
+	mu    sync.Mutex
+	state connectivity.State
+	seen  connectivity.State
+	waits int
+	ch    chan struct{}
+}
+
+func newC15Conn(s connectivity.State) *c15Conn {
+	return &c15Conn{state: s, seen: -1, ch: make(chan struct{})}
+}
+
+func (c *c15Conn) GetState() connectivity.State {
+	c.mu.Lock()
+	defer c.mu.Unlock()
+	return c.state
+}
+
+func (c *c15Conn) WaitForStateChange(ctx context.Context, source connectivity.State) bool {
+	for {
+		c.mu.Lock()
+		c.seen = source
+		c.waits++
+		if c.state != source {
+			c.mu.Unlock()
+			return true
+		}
+		ch := c.ch
+		c.mu.Unlock()
+		select {
+		case <-ch:
+		case <-ctx.Done():
+			return false
+		}
+	}
+}
+
+// set changes the state and waits until the watcher has taken notice of it.
+func (c *c15Conn) set(s connectivity.State) bool {
+	c.mu.Lock()
+	if c.state != s {
+		c.state = s
+		close(c.ch)
+		c.ch = make(chan struct{})
+	}
+	c.mu.Unlock()
+	return kit.WaitFor(c15Timeout, func() bool {
+		c.mu.Lock()
+		defer c.mu.Unlock()
+		return c.seen == s
+	})
+}
+
+var c15States = map[string]connectivity.State{"IDLE": connectivity.Idle, "CONNECTING": connectivity.Connecting,
+	"READY": connectivity.Ready, "TRANSIENT_FAILURE": connectivity.TransientFailure, "SHUTDOWN": connectivity.Shutdown}
 
 type c15Sub struct {
 	p     int // prefix index
@@ -346,6 +417,16 @@ func runC15Case(c kit.Case) (v kit.Verdict) {
 	internal.VerifSeedClient(endpoints, etcd)
 	defer internal.VerifDrop(endpoints)
 
+	// connection-state stage: reloads are triggered by the real stateWatcher from scripted states
+	var conn *c15Conn
+	if len(c.Steps) > 0 && c.Steps[0]["conn"] != nil {
+		conn = newC15Conn(connectivity.Ready)
+		internal.VerifWatchConnState(endpoints, etcd, conn)
+		if !kit.WaitFor(c15Timeout, func() bool { conn.mu.Lock(); defer conn.mu.Unlock(); return conn.waits > 0 }) {
+			return infra("the state watcher did not start watching the scripted connection")
+		}
+	}
+	connDown := false
 	subs := map[string]*c15Sub{}
 	var order []string
 	up := true
@@ -360,6 +441,9 @@ func runC15Case(c kit.Case) (v kit.Verdict) {
 		rwg.Wait()
 	}()
 	valuesKey := func(kind string, s *c15Sub, op string) string {
+		if kind == "foreign-value" {
+			return "C15:foreign-value"
+		}
 		if readers > 0 {
 			return "C15:stale-cache:concurrent-reader"
 		}
@@ -370,9 +454,12 @@ func runC15Case(c kit.Case) (v kit.Verdict) {
 		op := kit.Str(st["op"])
 		p := kit.Num(st["p"])
 		pfx := c15Pfx(p)
-		etcd.mu.Lock()
-		etcd.prefixes[pfx+"/"] = true
-		etcd.mu.Unlock()
+		// keys of sibling services (svc2/..., svc-admin/...) changing in the same etcd
+		for _, x := range kit.List(st["sib"]) {
+			m := x.(map[string]any)
+			etcd.apply(c15Change{del: kit.Str(m["op"]) == "del", key: kit.Str(m["key"]), val: kit.Str(m["val"])})
+			trail = append(trail, "sibling-"+kit.Str(m["op"])+":"+kit.Str(m["key"]))
+		}
 		// a step concerns one prefix, or (connection events) all prefixes of the cluster at once
 		parts := []kit.M{st}
 		if sh := kit.List(st["shared"]); len(sh) > 0 {
@@ -387,6 +474,9 @@ func runC15Case(c kit.Case) (v kit.Verdict) {
 			tag = fmt.Sprintf("[%s]", pfx)
 		}
 		trail = append(trail, tag+op+":"+kit.Str(st["k"])+kit.Str(st["s"])+c15Mid(st["mid"]))
+		if f := c15Faults(st["states"]); len(f) > 0 {
+			trail[len(trail)-1] += fmt.Sprintf("(connection states %v)", f)
+		}
 		if f := c15Faults(st["faults"]); len(f) > 0 {
 			trail[len(trail)-1] += fmt.Sprintf("(Get faults %v)", f)
 		}
@@ -402,6 +492,14 @@ func runC15Case(c kit.Case) (v kit.Verdict) {
 			etcd.apply(c15Change{del: true, key: key})
 		case "disconnect":
 			up = false
+			if conn != nil {
+				for _, nm := range c15Faults(st["states"]) {
+					if !conn.set(c15States[nm]) {
+						return infra("state watcher did not observe " + nm)
+					}
+				}
+				connDown = true
+			}
 		case "resume":
 			up = true
 		case "reload":
@@ -421,11 +519,38 @@ func runC15Case(c kit.Case) (v kit.Verdict) {
 			etcd.faults, etcd.nHealthy, etcd.nExpired = faults, 0, 0
 			etcd.mu.Unlock()
 			before := etcd.watchCalls()
+			etcd.mu.Lock()
+			getsBefore := etcd.nGet
+			etcd.mu.Unlock()
 			listened := map[int]bool{}
 			for _, s := range subs {
 				listened[s.p] = true
 			}
-			internal.VerifReload(endpoints, etcd)
+			if conn == nil {
+				internal.VerifReload(endpoints, etcd)
+			} else {
+				// the connection fails (unless the outage is already under way) and recovers through
+				// the scripted states; the real stateWatcher must call the cluster's reload
+				seq := c15Faults(st["states"])
+				if connDown && len(seq) > 0 && (seq[0] == "TRANSIENT_FAILURE" || seq[0] == "SHUTDOWN") {
+					seq = seq[1:]
+				}
+				for _, nm := range seq {
+					if !conn.set(c15States[nm]) {
+						return infra("state watcher did not observe " + nm)
+					}
+				}
+				connDown = false
+				if !kit.WaitFor(3*time.Second, func() bool { return etcd.watchCalls() >= before+len(listened) }) {
+					etcd.mu.Lock()
+					gets := etcd.nGet
+					etcd.mu.Unlock()
+					if etcd.watchCalls() == before && gets == getsBefore {
+						return fail(i, "C15:reload:not-triggered", fmt.Sprintf("step %d: the connection went through %v (the state watcher observed each state) "+
+							"but no reload followed within 3 s: no snapshot was requested, no watch restarted [history %v]", i, c15Faults(st["states"]), trail))
+					}
+				}
+			}
 			// one load+watch per listened key (prefix)
 			if !kit.WaitFor(c15Bound(faults), func() bool { return etcd.watchCalls() >= before+len(listened) }) {
 				if len(faults) > 0 {
@@ -570,6 +695,11 @@ func runC15Case(c kit.Case) (v kit.Verdict) {
 				}
 				if !c15In(got, allowed) {
 					kind := c15Kind(raw, exp[s.name])
+					for _, g := range raw {
+						if !c15KnownVal(g) {
+							kind = "foreign-value" // a value no key under the subscriber's prefix ever carried
+						}
+					}
 					return fail(i, valuesKey(kind, s, op),
 						fmt.Sprintf("step %d (%s): Values() of %s (%s) = %s, specification admits %v [history %v]",
 							i, op, name, c15Mode(s.excl), got, allowed, trail))
@@ -671,6 +801,16 @@ func c15Mid(v any) string {
 	return "(then, before the new watch: " + strings.Join(out, ",") + ")"
 }
 
+func c15KnownVal(v string) bool {
+	c15Val(kit.Case{}, "k1")
+	for _, x := range c15ValTable {
+		if x == v {
+			return true
+		}
+	}
+	return false
+}
+
 func c15In(got string, allowed []string) bool {
 	for _, a := range allowed {
 		if a == got {
@@ -761,7 +901,6 @@ func TestVerifC15Probe(t *testing.T) {
 	rng := rand.New(rand.NewSource(kit.Seed()))
 	endpoints := []string{"verif-c15-probe:2379"}
 	etcd := newC15Etcd()
-	etcd.prefixes[c15Prefix+"/"] = true
 	internal.VerifSeedClient(endpoints, etcd)
 	defer internal.VerifDrop(endpoints)
 	etcd.apply(c15Change{key: c15Prefix + "/k1", val: "va"})
@@ -791,5 +930,55 @@ func TestVerifC15Probe(t *testing.T) {
 	b, _ := json.Marshal(out)
 	if err := os.WriteFile(kit.Env("VERIF_C15_PROBE_OUT", os.TempDir()+"/c15probe.json"), b, 0o644); err != nil {
 		t.Fatal(err)
+	}
+}
+
+// TestVerifC15StateWatcher replays the state sequences of spec/DiscovConn.tla on the real
+// stateWatcher alone (through internal.VerifNewStateWatcher): after every state the watcher has
+// observed, the number of listener notifications must equal the specification's count.
+func TestVerifC15StateWatcher(t *testing.T) {
+	logx.SetWriter(c15Logger)
+	rep, err := kit.NewReporter(kit.Env("VERIF_OUT", ""))
+	if err != nil {
+		t.Fatal(err)
+	}
+	defer rep.Close()
+	cases, err := kit.LoadCases(kit.Env("VERIF_CASES", ""))
+	if err != nil {
+		t.Fatal(err)
+	}
+	shard, shards := kit.EnvInt("VERIF_SHARD", 0), kit.EnvInt("VERIF_SHARDS", 1)
+	for _, c := range cases {
+		if c.Index%shards != shard {
+			continue
+		}
+		v := kit.Verdict{Case: c.Index, OK: true}
+		var notes atomic.Int64
+		var seq []string
+		conn := newC15Conn(c15States[kit.Str(c.Steps[0]["s"])])
+		internal.VerifNewStateWatcher(conn, func() { notes.Add(1) })
+		if !kit.WaitFor(c15Timeout, func() bool { conn.mu.Lock(); defer conn.mu.Unlock(); return conn.waits > 0 }) {
+			rep.Put(kit.Verdict{Case: c.Index, Infra: true, Msg: "state watcher did not start"})
+			continue
+		}
+		for i, st := range c.Steps {
+			name := kit.Str(st["s"])
+			seq = append(seq, name)
+			if i > 0 && !conn.set(c15States[name]) {
+				v = kit.Verdict{Case: c.Index, Infra: true, Msg: "state watcher did not observe " + name}
+				break
+			}
+			v.Steps++
+			if got, want := int(notes.Load()), kit.Num(st["n"]); got != want {
+				kind := "missing"
+				if got > want {
+					kind = "extra"
+				}
+				v.OK, v.Step, v.Key = false, i, "C15:statewatcher:"+kind+"-notification"
+				v.Msg = fmt.Sprintf("connection states %v: listeners notified %d times, specification %d (once per outage, when READY is reached again)", seq, got, want)
+				break
+			}
+		}
+		rep.Put(v)
 	}
 }
